@@ -11,6 +11,8 @@ CONSTANTS
   Monitor = TRUE
   IdleMax = 2
   DevMonNoFeed = FALSE
+  Reactive = FALSE
+  DevNoSignalOnError = FALSE
   DevCloseWriterFallback = FALSE
   Emit = FALSE
   Classes = {1}
@@ -34,6 +36,6 @@ CONSTANTS
   DevSockDeadline = FALSE
   DevDropOnClose = FALSE
 SPECIFICATION BSpec
-INVARIANTS BTypeOK BPipe BComplete BReverseKeepsFlowing BNoSpuriousEnd BNoSpuriousWriteEnd BNoDeadline BMonitorOnlyIdle
-PROPERTIES BMonotone BTermination BReverseDelivered
+INVARIANTS BTypeOK BPipe BComplete BReverseKeepsFlowing BNoSpuriousEnd BNoSpuriousWriteEnd BNoDeadline BMonitorOnlyIdle BToldSafe
+PROPERTIES BMonotone BTermination BReverseDelivered BTold
 CHECK_DEADLOCK FALSE
